@@ -18,7 +18,7 @@ func init() {
 		[]string{"uint8 arithmetic wraps; comparison results depend on the ordering of the operands only"},
 		runC01)
 	register("C09",
-		"WIN-5 admission: in the send loop every path from one addPacket to the next passes a block dominated by size() < n; sendDataChan is unbuffered, received only by the send loop's main select and sent only by Send's hand-off (so Send blocks exactly while the loop is not admitting). SEQSPACE: every definition of an s field is X+1 with X the value stored to the sibling n (or config.n) and X <= 254, so the sequence space is strictly larger than the window for every constructor and for setN; syncer.s is the queue's s. SIZE: queue.size() is one of the two accepted closed forms of (top - base) mod s. Plus INV, WIN-4 and ORD-1 as for C01/C07. The lock-order, race and close-site obligations of C18 are imported (Send blocks only until an ACK frees a slot presupposes that the two loops cannot deadlock on the queue's mutexes). Not decided: the instantaneous outstanding count under all ACK/NACK schedules (follows from these facts only by an inductive argument the checker does not make).",
+		"WIN-5 admission: in the send loop every path from one addPacket to the next passes a block dominated by size() < n; sendDataChan is unbuffered, received only by the send loop's main select and sent only by Send's hand-off (so Send blocks exactly while the loop is not admitting). SEQSPACE: every definition of an s field is X+1 with X the value stored to the sibling n (or config.n) and X <= 254, so the sequence space is strictly larger than the window for every constructor and for setN; syncer.s is the queue's s. SIZE: queue.size() is one of the two accepted closed forms of (top - base) mod s. Plus INV, WIN-4 and ORD-1 as for C01/C07. The lock-order, race and close-site obligations of C18 are imported (Send blocks only until an ACK frees a slot presupposes that the two loops cannot deadlock on the queue's mutexes). The wake-up and timer-ownership obligations of C06 (WAKE, KA-6: the resend timer is stopped only by Close) are imported: a blocked Send is released by the send loop, whose window-full wait falls back on the resend timer when the non-blocking ACK signal was missed. Not decided: the instantaneous outstanding count under all ACK/NACK schedules (follows from these facts only by an inductive argument the checker does not make).",
 		[]string{"uint8 arithmetic wraps"},
 		runC09)
 	register("C10",
@@ -990,6 +990,11 @@ func runC09(c *Checker) {
 	// "Send blocks only until an acknowledgement frees a slot" presupposes that the send and the
 	// receive goroutine cannot deadlock on the queue's two mutexes (C18 LOCKORD)
 	importLayers(c, "C18")
+	// "Send blocks only while the window is full": the blocked Send is released by the send loop,
+	// whose window-full wait is re-evaluated by the ACK signal or, when that non-blocking signal was
+	// missed, by the resend timer - the wake-up and timer-ownership obligations of C06 (WAKE, KA-6)
+	// are what keeps a freed slot from going unnoticed
+	importLayers(c, "C06")
 	w := c.w
 	ruleWIN5(c)
 	rg := newRanger(w)
